@@ -40,6 +40,7 @@ VARIANTS = [
 CLS = dict(adv="Advection", diff="Diffusion", advdiff="AdvectionDiffusion", disp="Dispersion", hyp0="HyperDiffusion", hyp1="HyperDiffusion",
            wave="Wave", genlin="GeneralLinearStepper", normlin="NormalizedLinearStepper", difflin="DifficultyLinearStepper",
            diffsimple="DifficultyLinearStepperSimple")  # fmt: skip
+HUGE_N = [512, 1000, 1023, 2048, 3001, 4096, 6000]
 CONSERVATIVE = {"adv_s", "adv_v", "disp_s0", "disp_s1", "disp_v0", "disp_v1", "genlin_odd"}
 STRICT = {"diff_s", "diff_v", "advdiff_ss", "advdiff_vm", "hyp0", "hyp1"}
 
@@ -48,6 +49,9 @@ def strata(tier):
     ns = {1: [9, 12], 2: [5, 6], 3: [3, 4]} if tier == "quick" else {1: [3, 4, 9, 16, 33, 40], 2: [3, 4, 7, 8, 13, 16], 3: [3, 4, 5, 6, 9, 10]}
     out = [dict(id="%s-D%d-N%d" % (v, D, N), v=v, D=D, N=N) for v in VARIANTS for D in (1, 2, 3) for N in ns[D]]
     out += [dict(id="%s-D%d-anyN" % (v, D), v=v, D=D, N="any") for i, v in enumerate(VARIANTS) for D in (1, 2, 3) if tier != "quick" or D == 1 + i % 3]
+    # production-size 1D grids ("every resolution"): k^j of the highest modes exceeds 2^31 / 2^63 for the
+    # higher derivative orders, exp(-dt nu k^j) underflows, phases are huge
+    out += [dict(id="%s-D1-hugeN" % v, v=v, D=1, N="any", n_choices=HUGE_N) for v in VARIANTS]
     return out
 
 
@@ -110,11 +114,11 @@ def kw_strategy(v, D):
     odd = st.one_of(st.just(0.0), sc)
 
     def signed(t):
-        a0, a1, a2, a3, a4, a5, a6, m = t
-        a = [-a0, a1, a2, a3, -a4, a5, a6]
+        a0, a1, a2, a3, a4, a5, a6, a7, a8, m = t
+        a = [-a0, a1, a2, a3, -a4, a5, a6, a7, -a8]  # dissipative signs of the even orders 0, 2, 4, 6, 8
         return a[: m + 1]
 
-    lst = st.tuples(mag, odd, mag, odd, mag, odd, mag, st.integers(0, 6)).map(signed)
+    lst = st.tuples(mag, odd, mag, odd, mag, odd, mag, odd, mag, st.sampled_from([0, 1, 2, 3, 4, 5, 6, 7, 8, 8, 6])).map(signed)
     if v == "genlin":
         return st.fixed_dictionaries(dict(linear_coefficients=lst))
     if v == "genlin_odd":
@@ -125,7 +129,7 @@ def kw_strategy(v, D):
         return st.fixed_dictionaries(dict(linear_difficulties=lst))
     if v == "diffsimple":
         # order j with the dissipative sign of that order; odd orders: any sign
-        return st.integers(0, 6).flatmap(
+        return st.integers(0, 8).flatmap(
             lambda j: st.fixed_dictionaries(
                 dict(order=st.just(j), difficulty=(sc if j % 2 == 1 else st.floats(0.05, 5.0).map(lambda x: float("%.5g" % (x * (1 if j % 4 == 2 else -1))))))
             )
